@@ -342,15 +342,31 @@ class Check:
         cmd = [vlib.PY, os.path.join(vlib.VERIF, "corr", "drv_%s.py" % driver), "--prop", self.prop, "--tier", tier,
                "--seed", str(self.seed if seed is None else seed), "--out", out] + (args or [])
         t = time.time()
+        # the same driver run a second time, concurrently, in another interpreter mode (python -O: assertions stripped, __debug__ false):
+        # everything it observes on the implementation must be the same, byte for byte
+        second = None
+        if os.environ.get("VERIF_SECOND_MODE", "1") != "0":
+            out2 = out + "_O"
+            os.makedirs(out2, exist_ok=True)
+            env2 = vlib.impl_env()
+            env2["VERIF_INNER"] = "1"
+            cmd2 = [cmd[0], "-O"] + [out2 if x == out else x for x in cmd[1:]]
+            second = (subprocess.Popen(cmd2, env=env2, stdout=subprocess.DEVNULL, stderr=subprocess.PIPE, text=True), out2)
         try:
             p = subprocess.run(cmd, env=vlib.impl_env(), capture_output=True, text=True, timeout=timeout)
         except subprocess.TimeoutExpired:
+            if second:
+                second[0].kill()
             self.oblige("driver %s finishes" % driver, "correspondence", False, "timeout")
             return None
         if p.returncode != 0 or not os.path.exists(os.path.join(out, "meta.json")):
+            if second:
+                second[0].kill()
             self.oblige("driver %s runs the implementation" % driver, "correspondence", False, p.stdout[-1500:] + p.stderr[-3000:])
             return None
         meta = json.load(open(os.path.join(out, "meta.json")))
+        if second:
+            self.second_mode(driver, meta, out, second, timeout)
         meta["_dir"] = out
         meta["_secs"] = time.time() - t
         key = "%s#%d" % (driver, len(self.corr["drivers"]))
@@ -363,6 +379,53 @@ class Check:
             self.violations.append({"kind": "direct", "driver": driver, **dv})
         meta["_key"] = key
         return meta
+
+    def second_mode(self, driver, meta, out, second, timeout):
+        """compare the observations of the concurrent python -O run of a driver with those of the normal run"""
+        proc, out2 = second
+        try:
+            _, se = proc.communicate(timeout=timeout)
+        except subprocess.TimeoutExpired:
+            proc.kill()
+            self.notes.append("driver %s under python -O did not finish in time: second interpreter mode not compared" % driver)
+            return
+        note = {"note": "python -O (assertions stripped)"}
+        try:
+            meta2 = json.load(open(os.path.join(out2, "meta.json")))
+        except Exception:  # noqa
+            meta2 = None
+        if proc.returncode != 0 or meta2 is None:
+            self.violations.append({"kind": "direct", "driver": driver, "desc": "%s: driver %s crashes under python -O although it runs in the normal mode: %s" % (self.prop, driver, (se or "")[-400:]),
+                                    "input": dict(note), "got": {}})
+            return
+        have = {dv.get("desc") for dv in meta.get("direct_violations", [])}
+        for dv in meta2.get("direct_violations", [])[:5]:
+            if dv.get("desc") not in have:
+                dv = dict(dv)
+                dv["desc"] = "under python -O (assertions stripped): " + str(dv.get("desc"))
+                dv.setdefault("input", {})["note"] = note["note"]
+                self.violations.append({"kind": "direct", "driver": driver, **dv})
+        ndiff = 0
+        for fn in sorted(os.listdir(out)):
+            if not (fn.startswith("cases") or fn == "specs.json"):
+                continue
+            a = open(os.path.join(out, fn), "rb").read()
+            try:
+                b = open(os.path.join(out2, fn), "rb").read()
+            except OSError:
+                b = None
+            if a != b:
+                ndiff += 1
+                if ndiff == 1:
+                    la, lb = a.split(b"\n"), (b or b"").split(b"\n")
+                    k = next((i for i, (x, y) in enumerate(zip(la, lb)) if x != y), min(len(la), len(lb)))
+                    self.violations.append({"kind": "direct", "driver": driver,
+                                            "desc": "%s: what driver %s observes on the implementation differs under python -O (file %s, line %d)" % (self.prop, driver, fn, k + 1),
+                                            "input": {"note": note["note"], "normal": la[k][:3000].decode("latin1") if k < len(la) else "", "python_O": lb[k][:3000].decode("latin1") if k < len(lb) else ""},
+                                            "got": {}})
+        self.direct["evaluations"] += meta2.get("direct_evaluations", 0)
+        self.corr["distribution"]["%s.second_interpreter_mode_files_compared" % driver] = len([f for f in os.listdir(out) if f.startswith("cases")])
+        shutil.rmtree(out2, ignore_errors=True)
 
     def compare(self, meta, label=None, timeout=1200):
         """compile the driver's case files (model evaluated by vm_compute, compared inside Coq)"""
